@@ -23,6 +23,7 @@ func init() {
 		Level: "exploration",
 		Rule: "Dawgs of: ALL 2^15 subsets of the words of length <= 3 over {a,b} (exhaustive; thorough adds all 2^13 subsets of the words of length <= 2 over {a,b,c}), the fixed families (a node with k children for k in {0,1,2,26,127,128,129,255,256} at the root, below a prefix, with the empty word, with distinct tails, with final children; unary words giving 127/128/129 and 255/256/257 nodes and ids), the boundary table (all binary words of length 16 = 65536 words, minus one, plus one word created last so that ids beyond 65535 survive; 126..129 and 254..257 words; wide fans over distinct tails so that link targets have indices beyond 127 and 255; two levels of wide fans; thorough: all two-byte words in 3 nodes and 65535/65536/65537 nodes), and seeded sets over alphabets of 1..256 bytes with up to 5000 words. " +
 			"Receivers that already hold an automaton: ALL ordered pairs (old, new) of the 64 subsets of {\"\",a,b,aa,ab,ba} and all ordered pairs of 16 contrasting fixed sets (with/without the empty word, 1..301 nodes, fan-out 0..256, 0..512 words), and consecutive seeded sets, each in 5 ways (receiver built by New; receiver decoded before; the same data decoded twice in a row; two values through ONE gob Encoder/Decoder pair into the same variable; the same into the same non-nil pointer), judged exactly like a decode into a fresh receiver, plus a check that an earlier copy of the same bytes is not affected. " +
+			"Caller-owned bytes: after GobDecode(b) the caller overwrites b (with '#', with zeros, with another encoding of the same length) and only then the decoded Dawg is compared; several records are decoded through ONE reused read buffer and all decoded Dawgs are checked afterwards; the slice returned by GobEncode is overwritten (spare capacity included) and the Dawg and its next encoding must be unaffected, and an earlier result must survive later encodings of larger and smaller automata; several Dawgs through one gob Encoder / Decoder pair whose buffers are Reset and refilled between messages, all checked at the end (the 64 subsets of a 6-word universe, the 1024 subsets of a 10-word universe, the contrasting fixed sets, batches of 8 seeded sets). " +
 			"Each Dawg is encoded with GobEncode, decoded with GobDecode into a fresh Dawg (and for every 3rd case into a Dawg that already holds other words) and sent through encoding/gob; each copy is compared with the reference model (NumberOfWords, Lookup rank of every member, non-members, structure walk with numWords, node count by accessor and by header), with the node graph of the original (up to the numbering of the ids, which is only recorded), on seeded searches, and re-encoded (bytes must be identical). " +
 			"non-trivial = a set with >= 2 words whose minimal automaton has fewer nodes than its trie (links to shared nodes are what the index table of the encoding is for); distinct = by construction (exhaustive) / hash of the word list",
 		Assumptions: []string{
@@ -33,7 +34,7 @@ func init() {
 		Run:            run,
 		MinEvaluations: map[string]int{"quick": 2000000, "thorough": 10000000},
 		MinNontrivial:  map[string]int{"quick": 20000, "thorough": 50000},
-		RequiredObs: []string{"used:receiver_built_by_New", "used:receiver_decoded_before", "used:decoded_twice_in_a_row", "used:one_gob_stream_same_variable", "used:one_gob_stream_same_pointer", "used:old_root_final_new_root_not", "used:old_root_not_final_new_root_final", "used:old_has_links_new_root_has_none", "used:old_more_nodes", "used:old_fewer_nodes", "used:old_wider_fanout", "used:old_narrower_fanout", "used:old_more_words", "used:old_fewer_words", "used:earlier_copy_unaffected", "roundtrips:GobDecode", "roundtrips:encoding/gob", "roundtrips:into_used_dawg", "reencodings_identical", "searches_compared",
+		RequiredObs: []string{"owned:decode_input_overwritten-with-#", "owned:decode_input_overwritten-with-zeros", "owned:decode_input_overwritten-with-another-encoding", "owned:another_encoding_of_the_same_length_used", "owned:read_buffer_sequences", "owned:encode_results_overwritten", "owned:encode_then_other_encodes", "owned:gob_stream_sequences", "used:receiver_built_by_New", "used:receiver_decoded_before", "used:decoded_twice_in_a_row", "used:one_gob_stream_same_variable", "used:one_gob_stream_same_pointer", "used:old_root_final_new_root_not", "used:old_root_not_final_new_root_final", "used:old_has_links_new_root_has_none", "used:old_more_nodes", "used:old_fewer_nodes", "used:old_wider_fanout", "used:old_narrower_fanout", "used:old_more_words", "used:old_fewer_words", "used:earlier_copy_unaffected", "roundtrips:GobDecode", "roundtrips:encoding/gob", "roundtrips:into_used_dawg", "reencodings_identical", "searches_compared",
 			"fanout:0", "fanout:1", "fanout:127", "fanout:128", "fanout:129", "fanout:255", "fanout:256",
 			"nodes:127", "nodes:128", "nodes:129", "nodes:255", "nodes:256", "nodes:257", "words:127", "words:128", "words:255", "words:256", "words:65535", "words:65536", "words:65537", "ids>=128", "ids>=65536"},
 	})
@@ -488,6 +489,9 @@ func run(c *engine.Ctx) {
 	// 4. decoding into receivers that already hold an automaton (used.go)
 	usedReceivers(c)
 
+	// 4b. the bytes given to GobDecode / returned by GobEncode are the caller's to reuse (owned.go)
+	callerOwnedBytes(c)
+
 	// 5. seeded
 	nSets := c.Pick(5000, 16000)
 	perUnit := 40
@@ -495,6 +499,7 @@ func run(c *engine.Ctx) {
 		un := un
 		c.Unit(fmt.Sprintf("seeded/%d", un), func() {
 			var prev *prepared
+			var batch []*prepared
 			for i := un * perUnit; i < (un+1)*perUnit && i < nSets; i++ {
 				rg := c.Rand("c14-sets", i)
 				maxWords := 300
@@ -524,6 +529,14 @@ func run(c *engine.Ctx) {
 						}
 					}
 					if cur != nil {
+						batch = append(batch, cur)
+						if len(batch) == 8 {
+							ownedAll(c, fmt.Sprintf("seeded#%d|owned", i), batch, rg)
+							batch = batch[:0]
+							if c.Stopped() {
+								return
+							}
+						}
 						prev = cur
 					}
 				}
